@@ -12,6 +12,7 @@ CONSTANTS
   ReqMethods = {"GET"}
   ReqHosts = {""}
   ReqPaths = {"/a"}
+  ReqOrigins = {""}
   GenMinCalls = 1
   Dev = {}
 INIT GenInit
